@@ -14,7 +14,7 @@
    outcome [Ok]; whether the call succeeds is not part of them (see C19_K1_refuted). *)
 From Coq Require Import NArith List Arith.
 From GV Require Import Base.Result Model.Optimize Spec.HeapIso Proofs.C19.Base Proofs.C19.StoreLemmas
-  Proofs.C19.CloneStack Proofs.C19.CloneData Proofs.C19.OptimizeProof Proofs.C19.Reader Proofs.C19.Closure Proofs.C19.Examples.
+  Proofs.C19.CloneStack Proofs.C19.CloneData Proofs.C19.OptimizeProof Proofs.C19.Reader Proofs.C19.Closure Proofs.C19.Examples Proofs.C19.Bounded.
 Import ListNotations.
 
 (* clone_data: the result reads as the argument did, and the original is intact: no cell below the
@@ -75,6 +75,22 @@ Theorem C19_children_first : forall h0 c0 o ret ds sI i s k q,
   exists k', lookup s (ds + S i) (ds + c0) k = Ok k'.
 Proof. exact lookup_of_later_item_succeeds. Qed.
 Print Assumptions C19_children_first.
+
+(* ADDITIONAL, BOUNDED (finite, by vm_compute; the bound is in the name): on every one of the
+   1 + 4 + 36 + 576 data blocks of at most 4 cells over {number, pair, RegisterRoot, ValueRoot} with
+   addresses pointing below the cell, every register head, value head, retention count 0..2 and extra
+   root, the model's optimize returns Ok and [check1] holds: the executable read-back of the root, of
+   both heads and of the retained cells is unchanged.  Not a substitute for C19_optimize; it adds that
+   the call succeeds, on this finite family only. *)
+Theorem C19_optimize_succeeds_bounded_4 : forall n h ret hr hv root,
+  In n [1; 2; 3; 4] -> In h (blocks n) ->
+  In ret [0; 1; 2] -> ret <= length h -> In hr (heads_of is_rr h) -> In hv (heads_of is_vr h) -> root < length h ->
+  check1 h ret hr hv root = true.
+Proof. exact optimize_succeeds_bounded_4. Qed.
+Print Assumptions C19_optimize_succeeds_bounded_4.
+
+Example C19_bounded_family_sizes : map (fun n => length (blocks n)) [1; 2; 3; 4] = [1; 4; 36; 576].
+Proof. exact blocks_count. Qed.
 
 (* non-vacuity: concrete stores meet the hypotheses, the calls succeed and move things *)
 Example C19_ex_optimize : exists s', optimize ex_store [2; 10] = Ok (s', [3; 0]) /\
